@@ -100,8 +100,9 @@ def run(tier, replay=None):
     mabs += c
     cov_pairs += n
 
-    n_ost = 1800 if tier == "quick" else len(stimuli["outstation"]) * 2
-    n_mst = 900 if tier == "quick" else len(stimuli["master"]) * 3
+    draws = int(os.environ.get("VERIF_DRAWS", "8"))
+    n_ost = 1800 if tier == "quick" else len(stimuli["outstation"]) * draws
+    n_mst = 900 if tier == "quick" else len(stimuli["master"]) * draws
     ost_st = list(stimuli["outstation"])
     mst_st = list(stimuli["master"])
     # every (layer, kind, function code) once in its plainest form first, the rest in seeded order
